@@ -166,6 +166,12 @@ func baseNextToken(l *Lexer) token.Token {
 		}
 	}
 
+	// Multi-character operators are recognised while positioned on their last
+	// character: move the start back to their first character
+	if n := len(tok.Literal); n > 1 && tok.Start == tok.End && tok.Type != token.ILLEGAL {
+		tok.Start.Column -= n - 1
+	}
+
 	l.ReadChar()
 	return tok
 }
